@@ -310,7 +310,13 @@ func isUntyped(t types.Type) bool {
 
 func width(t types.Type) int64 { return sizes.Sizeof(t) * 8 }
 
+// memType is the spec-level type of the raw byte memory (ufun parameters)
+var memType = types.NewNamed(types.NewTypeName(0, nil, "memory", nil), types.NewStruct(nil, nil), nil)
+
 func (m mode) leaves(t types.Type) []leaf {
+	if t == memType {
+		return []leaf{{"", "(Array (_ BitVec 64) (_ BitVec 8))", 0, nil}}
+	}
 	switch u := t.Underlying().(type) {
 	case *types.Basic:
 		switch {
